@@ -16,7 +16,7 @@ def split_traces(rep, tier, seed):
     rng = random.Random(seed * 1000003 + 18)
     traces, metas = [], []
     for i in range(1500 if tier == "thorough" else 250):
-        n = rng.randrange(1, 24)
+        n = (1, 2, 3)[i % 3] if i % 5 == 0 else rng.randrange(1, 24)
         d = rng.randrange(1, 4)
         r = np.random.default_rng(rng.randrange(2**31))
         X = r.normal(size=(n, d))
@@ -24,8 +24,8 @@ def split_traces(rep, tier, seed):
             X[rng.randrange(n)] = X[rng.randrange(n)]
         Y = r.integers(0, 3, size=n)
         den = rng.choice([1, 2, 4, 8, 16])
-        num = rng.randrange(0, den + 1)
-        seedv = rng.randrange(0, 1000)
+        num = (0, den)[i % 2] if i % 6 == 0 else rng.randrange(0, den + 1)              # percentage 0 and 1 are endpoints
+        seedv = 0 if i % 7 == 0 else (1 if i % 7 == 1 else rng.randrange(0, 1000))     # seed 0 is an endpoint (falsy)
         I = H.Interner()
         rows = lambda A: [I("r", a) for a in A]
         pairs = lambda A, B: [I("p", a, int(b)) for a, b in zip(A, B)]
